@@ -161,8 +161,19 @@ struct MbedEndpoint : Endpoint {
 	void app_in_ack(size_t n) override { appin.pop(n); }
 	void flush(bool) override { progress(); }
 	void close() override { want_close = true; progress(); }
-	bool ready() override { return !fatal && hs_done && !sent_shutdown; }
-	bool handshake_done() override { return hs_done; }
+	bool ready() override { return !fatal && hs_done && !sent_shutdown && ssl.state == MBEDTLS_SSL_HANDSHAKE_OVER; }
+	bool handshake_done() override { return hs_done && ssl.state == MBEDTLS_SSL_HANDSHAKE_OVER; }
+	// renegotiation is off by default in mbedTLS (requests are answered with a no_renegotiation warning)
+	void enable_renegotiation() { mbedtls_ssl_conf_renegotiation(&conf, MBEDTLS_SSL_RENEGOTIATION_ENABLED); }
+	bool renegotiate() override
+	{
+		if (fatal || !hs_done) return false;
+		if (getenv("VERIF_TRACE")) fprintf(stderr, "TRACE mbed renegotiate() state=%d renego=%d\n", ssl.state, ssl.renego_status);
+		int r = mbedtls_ssl_renegotiate(&ssl);
+		if (r == 0 || r == MBEDTLS_ERR_SSL_WANT_READ || r == MBEDTLS_ERR_SSL_WANT_WRITE) { progress(); return true; }
+		note(r);
+		return false;
+	}
 	bool closed() override { return fatal || (sent_shutdown && peer_closed); }
 	int error() override { return fatal ? (last_err ? last_err : 1) : 0; }
 
